@@ -9,10 +9,13 @@ def run(chk):
                 'volumes; every step is executed by the real command; after EVERY step the projection of the sandbox '
                 'must equal the behaviour state and real trash-list must print exactly the bag ListApply gives for that '
                 'state (records, not lines: names contain newlines); observed steps are re-judged by TLC (TrashTrace). '
-                'stage history-long-paths: the sandbox lies under 7 nested 242-byte non-ASCII directories. non-trivial = a step changed the state; distinct by command sequence x names')
+                'stage list-trash-dir: trash-list with one or several --trash-dir options over dated seed states; stage history-long-paths: the sandbox lies under 7 nested 242-byte non-ASCII directories. non-trivial = a step changed the state; distinct by command sequence x names')
     chk.assumptions += common.ASSUME
     common.mc(chk, invariants=['ListIsBag'])
     common.behaviours(chk, 'history', 75 if quick else 1200, 10 if quick else 14)
+    # --trash-dir given once or several times: exactly the entries of those directories
+    common.gen_tt(chk, 'list-trash-dir', 'Init_Dates', 'Next_ListTd', 10, 400,
+                  strat=lambda g: (g['lab']['td'], len(set(i['t'] for i in g['pre']['items'])), bool(g['pre']['strays'])), per_stratum=20)
     # the same with every path long and non-ASCII: the percent-encoded Path= line of a home-trash entry is about 5000 characters
     common.behaviours(chk, 'history-long-paths', 10 if quick else 150, 8 if quick else 12, opts={'conc': {'deep': True}})
 
